@@ -105,6 +105,10 @@ def cases(sh, tier):
     for lst in lists:
         for join, sort, axis in _opts():
             yield {"in": lst, "join": join, "sort": sort, "axis": axis, "tier": tier}
+        # the user has switched the module-level default for [] indexing to positions: aligning is by label all the same
+        if any(P[i]["kind"] == "ds" for i in lst) or len(lst) == 2:
+            yield {"in": lst, "join": "outer", "sort": False, "axis": None, "tier": tier, "gopt": "position"}
+            yield {"in": lst, "join": "inner", "sort": True, "axis": None, "tier": tier, "gopt": "position"}
 
 
 def state_key(case):
@@ -149,7 +153,15 @@ def check(case):
                 all_dims.append(d)
     if axis is not None and axis not in all_dims:
         return unspecified("axis-not-present")
-    got = call(da_align, objs, join, sort, axis)
+    if case.get("gopt"):
+        prev = common.da.rcParams["indexing.by"]
+        common.da.rcParams["indexing.by"] = case["gopt"]
+        try:
+            got = call(da_align, objs, join, sort, axis)
+        finally:
+            common.da.rcParams["indexing.by"] = prev
+    else:
+        got = call(da_align, objs, join, sort, axis)
     for o, b in zip(objs, before):
         if common.snap(o) != b:
             return bad("align modified an input: now {}".format(common.describe(o)))
